@@ -30,22 +30,26 @@ KIND_EXC = {"multi": "FileProvidedByMultipleTargetsError", "unresolved": "Unreso
 RECURSION_FRAMES = {"visitor", "_schedule", "_cached_schedule", "_visit", "dfs_inner", "check_for_circular_dependencies", "inner", "wrapper"}
 
 
-QUICK_BUDGET = {"cases": 4000, "deadline_s": 170, "case_timeout_s": 150, "floors": {"lib_decisions": 1312, "cli_commands": 300, "size_runs": 12}}
+QUICK_BUDGET = {"cases": 4000, "deadline_s": 170, "case_timeout_s": 900, "floors": {"lib_decisions": 1312, "cli_commands": 300, "size_runs": 12}}
 THOROUGH_FACTOR = 10  # thorough = the same workload with 10x the cases (floors scale along)
 
 
 def budget(tier):
     from ..core import scaled_budget
 
-    return scaled_budget(QUICK_BUDGET, tier, THOROUGH_FACTOR, noscale=('size_runs',), case_timeout_s=400)
+    return scaled_budget(QUICK_BUDGET, tier, THOROUGH_FACTOR, noscale=('size_runs',), case_timeout_s=900)
 
 
-SIZES_QUICK = [(s, d) for s in ("chain_fwd", "chain_rev") for d in (50, 300, 600, 1200)] + [("star", 2000), ("layered", 1500), ("chain_fwd", 3000), ("chain_rev", 3000)]
+SIZES_QUICK = [(s, d) for s in ("chain_fwd", "chain_rev") for d in (50, 300, 600, 1200)] + [("star", 2000), ("layered", 1500), ("chain_fwd", 3000), ("chain_rev", 3000), ("dense", 40), ("dense", 90)]
 SIZES_THOROUGH = [(s, d) for s in ("chain_fwd", "chain_rev") for d in (50, 150, 250, 320, 400, 500, 700, 1000, 1500, 2500, 5000)] + [
     ("star", 5000),
     ("layered", 5000),
     ("star", 500),
     ("layered", 300),
+    ("dense", 30),
+    ("dense", 60),
+    ("dense", 200),
+    ("dense", 600),
 ]
 
 
@@ -255,6 +259,11 @@ def size_workflow_src(shape, n):
         body = "for i in range(%d-1, 0, -1):\n    gwf.target('t%%d' %% i, inputs=['f%%d' %% (i-1)], outputs=['f%%d' %% i]) << 'echo'\ngwf.target('t0', inputs=['src.txt'], outputs=['f0']) << 'echo'\n" % n
     elif shape == "star":
         body = "gwf.target('hub', inputs=['src.txt'], outputs=['hub.out']) << 'echo'\nfor i in range(%d):\n    gwf.target('s%%d' %% i, inputs=['hub.out'], outputs=['s%%d.out' %% i]) << 'echo'\ngwf.target('sink', inputs=['s%%d.out' %% i for i in range(%d)], outputs=['sink.out']) << 'echo'\n" % (n, n)
+    elif shape == "dense":  # n stages of 3 targets, every target reads ALL outputs of the previous stage: 3**n paths
+        body = (
+            "for l in range(%d):\n    for w in range(3):\n        ins = ['src.txt'] if l == 0 else ['d%%d_%%d' %% (l-1, k) for k in range(3)]\n"
+            "        gwf.target('t%%d_%%d' %% (l, w), inputs=ins, outputs=['d%%d_%%d' %% (l, w)]) << 'echo'\n" % n
+        )
     else:  # layered: width 10, n/10 layers, each target consumes 3 of the previous layer
         body = (
             "W = 10\nL = max(2, %d // W)\nfor l in range(L):\n    for w in range(W):\n        ins = ['src.txt'] if l == 0 else ['l%%d_%%d' %% (l-1, (w+k) %% W) for k in range(3)]\n"
@@ -264,7 +273,19 @@ def size_workflow_src(shape, n):
 
 
 def depth_of(shape, n):
+    if shape == "dense":
+        return n
     return n if shape.startswith("chain") else (2 if shape == "star" else max(2, n // 10))
+
+
+def count_of(shape, n):
+    if shape.startswith("chain"):
+        return n
+    if shape == "star":
+        return n + 2
+    if shape == "dense":
+        return 3 * n
+    return 10 * max(2, n // 10)
 
 
 def run_size(case):
@@ -290,7 +311,12 @@ def run_size(case):
                 "wf = load_workflow(Path(%r), 'gwf')\ng = Graph.from_targets(wf.targets, CachedFilesystem())\nprint('TARGETS', len(g.targets))\n"
                 % (os.path.join(REPO, "src"), os.path.join(proj.root, "workflow.py"))
             )
-            p = subprocess.run([sys.executable, "-c", code], capture_output=True, text=True, cwd=proj.root, timeout=300)
+            try:
+                p = subprocess.run([sys.executable, "-c", code], capture_output=True, text=True, cwd=proj.root, timeout=200)
+            except subprocess.TimeoutExpired:
+                res.mon("size_runs")
+                res.violation("no-termination", "Graph.from_targets on %s of %d targets (depth %d) did not finish within 200 s" % (shape, count_of(shape, n), depth))
+                return res
             res.mon("size_runs")
             if p.returncode != 0:
                 exc = p.stderr.strip().splitlines()[-1].split(":")[0] if p.stderr.strip() else "?"
@@ -301,10 +327,11 @@ def run_size(case):
         sim = SimCluster(proj.simdir, "slurm")
         env = cli.env_for(proj.simdir, ("slurm",))
         for cmd in (["status", "-f", "summary"], ["run", "--dry-run"], ["touch"], ["status", "-f", "summary"]):
-            r = cli.gwf(proj.root, cmd, env, timeout=300, audit=False)
+            r = cli.gwf(proj.root, cmd, env, timeout=200, audit=False)
             res.mon("size_runs")
             if r.timed_out:
-                res.inconclusive = "size sweep watchdog: gwf %s on %s/%d" % (cmd, shape, n)
+                # these workloads take well under 10 s on the unchanged tree: 200 s without an answer is non-termination
+                res.violation("no-termination", "`gwf %s` on %s of %d targets (depth %d) did not finish within 200 s" % (" ".join(cmd), shape, count_of(shape, n), depth))
                 return res
             if r.rc != 0:
                 frames = r.gwf_frames()
@@ -312,7 +339,7 @@ def run_size(case):
                 res.violation(mech, "`gwf %s` on %s of %d targets (depth %d) died with %s" % (" ".join(cmd), shape, n, depth, r.exc_type), frames=frames[-4:], err=r.err[-600:])
             elif cmd[0] == "status":
                 tot = sum(cli.parse_summary(r.out).values())
-                want = n if shape.startswith("chain") else (n + 2 if shape == "star" else 10 * max(2, n // 10))
+                want = count_of(shape, n)
                 if tot != want:
                     res.violation("size-count", "status summary counts %d targets, workflow has %d" % (tot, want))
     return res
